@@ -577,3 +577,16 @@ def state_kept_by(prog, f):
                 probs.append(f'{norm(n)[:50]} stores into the module-level / default-argument container {b}')
     return sorted(set(probs))
 
+
+
+def borrow(ctx, rep, items):
+    """rules of sibling properties that are necessary conditions of this property as well (each with the reason); the
+    rule keeps the id it has in its home module, is evaluated on the same program and reported under this property too.
+    items: (module name, callable(mod) -> None, reason)"""
+    import importlib
+
+    rep.extra.setdefault('borrowed_rules', [])
+    for modname, run, why in items:
+        mod = importlib.import_module('.' + modname, __package__)
+        run(mod)
+        rep.extra['borrowed_rules'].append({'from': modname.upper(), 'why': why})
